@@ -190,6 +190,9 @@ def b_sig(a, b, n):
     hashed = sp(2, wire.u32(1600000000 + a)) + subs
     # the unhashed area also carries non-minimal length encodings and unknown subpackets
     unh = sp(16, sec.pub.keyid, form=[None, 5][b % 2]) + (sp(20, b'\x80\0\0\0\0\x01\0\x01kv', form=[None, 5][a % 2]) if b % 2 else b'') + (sp(105, bytes(a % 9)) if a % 3 == 0 else b'')
+    if a % 4 == 1:
+        # flag-valued subpackets in the unhashed area (RFC 4880 5.13 mentions Features there) with bits / octets PGPy has no names for
+        unh += sp(30, b'\x07') + sp(27, bytes([0x03, 0x04])) + sp(23, b'\x81') + sp(30, bytes([0x01, 0x80]))
     return 2, rsig.sign(sec, [0x00, 0x01, 0x02][a % 3], [8, 2, 10][b % 3], ('doc', b'x') if a % 3 < 2 else ('none',), hashed, unh)
 
 
@@ -369,6 +372,19 @@ def eval_foreign(c, rec):
         rec.finding('foreign-roundtrip', 'field-values-change/%s/%s' % (name, '+'.join(sorted(diff))[:40]), case, 'fields that differ after re-serialisation: %r' % diff)
     if out2 != out1:
         rec.finding('foreign-roundtrip', 'not-a-fixed-point/%s' % name, case, '%s.. vs %s..' % (out1[:20].hex(), out2[:20].hex()))
+    # signature subpackets: the reference's view of (type, critical, value) of every subpacket, hashed and unhashed, is unchanged
+    if tag == 2 and body[:1] == b'\x04' and type(p1).__name__ == 'SignatureV4':
+        try:
+            s0, s1 = rsig.parse_sig_body(body), rsig.parse_sig_body(q[0].body)
+            v0 = [(x.type, x.critical, x.body) for x in list(s0.hashed) + [None] + list(s0.unhashed) if x is None or x.type != 32] if False else \
+                [('h', x.type, x.critical, x.body) for x in s0.hashed] + [('u', x.type, x.critical, x.body) for x in s0.unhashed if x.type != 32]
+            v1 = [('h', x.type, x.critical, x.body) for x in s1.hashed] + [('u', x.type, x.critical, x.body) for x in s1.unhashed if x.type != 32]
+            if v0 != v1:
+                diff = sorted({a[1] for a in set(v0) ^ set(v1)})
+                rec.finding('foreign-roundtrip', 'subpacket-values-change/types-%s' % '+'.join(str(t_) for t_ in diff)[:30], case,
+                            'subpackets whose value differs after re-serialisation: %r' % [(a[0], a[1], a[3].hex()[:16]) for a in sorted(set(v0) ^ set(v1))][:6])
+        except (wire.WireError, IndexError):
+            pass
     # a copy of the parsed packet object (copies are what derived keys, copied messages and copied signatures are made of) emits the same octets
     try:
         import copy
